@@ -6,6 +6,7 @@ from mirsym import shapes as S, models as M
 from mirsym.collections import MapM
 from mirsym.interp import State, Agg, Ptr, Panic, Ret, UNINIT, UNIT, bv, Opaque, EnumV, Inconclusive, simp
 
+GRANDFATHERED = int('30a60b20830f000f755b70c57c998553a303cc11f8b1f574d5e9f7e26b645d8b', 16)
 COIN_TYPES = {r'^single:CoinID$': 'CoinDataHeight', r'^keyed\[coin_count\]': 'u64'}
 HIST_TYPES = {r'^single:BlockHeight$': 'Header'}
 POOL_TYPES = {r'^single:PoolKey$': 'PoolState'}
@@ -164,6 +165,8 @@ def run_batch(chk, it, shapes, kinds=None, exclude_kinds=('DoscMint',), entry='a
     state satisfying I-HIST / I-COUNT.  Returns a BatchRun."""
     from mirsym.interp import G
     G.reset()
+    if distinct_txs:
+        G.atomic_domains = {'single:Transaction'}
     st = State()
     state, sterms = sym_state(st.pc, stakes=stakes)
     install_history_invariant(it, sterms['height'])
@@ -184,6 +187,9 @@ def run_batch(chk, it, shapes, kinds=None, exclude_kinds=('DoscMint',), entry='a
         occ += [z3.And(M.is_variant(o.fields[2], 'Custom'), o.fields[2].payloads['Custom'][0].fields[0].fields[0] == h)
                 for o in tx.fields[2].fields]
         return z3.Or(occ) if occ else z3.BoolVal(False)
+    # A-HASH (preimage resistance): no new transaction hashes to the one grandfathered mainnet faucet hash
+    for h in hs:
+        st.pc.append(h != z3.BitVecVal(GRANDFATHERED, 256))
     n = len(txs)
     if distinct_txs:
         for i in range(n):
